@@ -22,11 +22,11 @@ import (
 )
 
 type RunStep struct {
-	Act string          `json:"act"` // "exec" (default) | "run": call Run and observe its verdict
-	Obj json.RawMessage `json:"obj"` // [[field, value]...] (map object); absent = nil object
-	NilObj bool         `json:"nilobj"` // pass an untyped nil as the object
-	Pre json.RawMessage `json:"pre"` // the variables the evaluator holds before this run (C07: fresh-evaluator oracle)
-	Exp *Expect         `json:"exp"`
+	Act    string          `json:"act"`    // "exec" (default) | "run": call Run and observe its verdict
+	Obj    json.RawMessage `json:"obj"`    // [[field, value]...] (map object); absent = nil object
+	NilObj bool            `json:"nilobj"` // pass an untyped nil as the object
+	Pre    json.RawMessage `json:"pre"`    // the variables the evaluator holds before this run (C07: fresh-evaluator oracle)
+	Exp    *Expect         `json:"exp"`
 }
 
 type Expect struct {
@@ -59,14 +59,14 @@ type Call struct {
 }
 
 type Outcome struct {
-	PrepErr  error
-	Err      error
-	Out      object.Object
-	Panic    interface{}
-	Calls    []Call
-	Scopes   int
-	Steps    int
-	Idle     string // non-empty: the machine was not left as it was found
+	PrepErr error
+	Err     error
+	Out     object.Object
+	Panic   interface{}
+	Calls   []Call
+	Scopes  int
+	Steps   int
+	Idle    string // non-empty: the machine was not left as it was found
 }
 
 func (o Outcome) describe() string {
